@@ -205,11 +205,12 @@ inline Node gen_node(const SchemaShape& sh, int level, sim::Rng& r, const TreePa
             sim::Rng big = r.fork("count-in-upper-half");
             if(big.chance(1, 5))
             {
-                static const unsigned counts[] = {127, 128, 129, 200, 253, 254};
-                cnt = counts[big.below(6)];
+                // 255: every value of the counter's underlying type is a count the wire can carry
+                static const unsigned counts[] = {127, 128, 129, 200, 253, 254, 255};
+                cnt = counts[big.below(7)];
             }
         }
-        cnt = (unsigned)std::min<u64>(cnt, width_mask(h.num_in_group.width) - 1);
+        cnt = (unsigned)std::min<u64>(cnt, width_mask(h.num_in_group.width) - (cnt == 255 ? 0 : 1));
         for(unsigned i = 0; i < cnt; i++) g.entries.push_back(gen_node(sh, gs.level, r, tp, g.wire_bl, depth + 1));
         n.groups.push_back(std::move(g));
     }
